@@ -114,6 +114,9 @@ func alphabet(n, t int, full bool, scope string) []Ev {
 			// an announcement that carries the key but NO public polynomial (after others that carried one)
 			add("master-nopoly", dkgConfirmEv[3], reqMaster(i, "masterkey-A", "", tNorm))
 			add("master-late", dkgConfirmEv[3], reqMaster(i, "masterkey-A", "pubpoly-A", tLate))
+			// two announced keys that agree on more bytes than a DKG public key has and differ only after
+			add("master-tail-x", dkgConfirmEv[3], reqMaster(i, "masterkey-A-with-a-tail-x", "pubpoly-A", tNorm))
+			add("master-tail-y", dkgConfirmEv[3], reqMaster(i, "masterkey-A-with-a-tail-y", "pubpoly-A", tNorm))
 		}
 		for k := 0; k < 4; k++ {
 			add("dkg-error", dkgErrorEv[k], reqError(i, strp(fmt.Sprintf("boom%d", k)), tNorm))
